@@ -67,7 +67,7 @@ type Rule func(*ast.Document, *schema.Schema, schema.FeatureSet, *TypeInfo) []*E
 func ValidateDocument(doc *ast.Document, s *schema.Schema, features schema.FeatureSet, additionalRules ...Rule) []*Error {
 	typeInfo := NewTypeInfo(doc, s, features)
 	var errs []*Error
-	for _, f := range append([]Rule{
+	for _, f := range []Rule{
 		validateDocument,
 		validateOperations,
 		validateFields,
@@ -76,8 +76,15 @@ func ValidateDocument(doc *ast.Document, s *schema.Schema, features schema.Featu
 		validateValues,
 		validateDirectives,
 		validateVariables,
-	}, additionalRules...) {
+	} {
 		errs = append(errs, f(doc, s, features, typeInfo)...)
+	}
+	if len(errs) == 0 {
+		// Additional rules (such as ValidateCost, which hands coerced arguments to the schema's cost
+		// functions) may rely on the document being valid.
+		for _, f := range additionalRules {
+			errs = append(errs, f(doc, s, features, typeInfo)...)
+		}
 	}
 	var primary []*Error
 	for _, err := range errs {
